@@ -315,13 +315,21 @@ func (x *Exec) applyUse(ce *Env, ui int, uc Clause, tag string) {
 		if !ok {
 			unsupported("%s: use clause must be a lemma application", uc.Line)
 		}
-		id, ok := call.Fun.(*ast.Ident)
-		if !ok {
+		var id *ast.Ident
+		switch f := call.Fun.(type) {
+		case *ast.Ident:
+			id = f
+		case *ast.SelectorExpr:
+			id = f.Sel // pkg.lemma: lemma names are unique across the loaded contract files
+		default:
 			unsupported("%s: use clause must name a lemma", uc.Line)
 		}
 		l := x.U.findLemma(x.Pkg.PkgPath, id.Name)
 		if l == nil {
 			unsupported("%s: unknown lemma %s", uc.Line, id.Name)
+		}
+		if tag == "entry" && len(l.Requires) > 0 {
+			return
 		}
 		if len(call.Args) != len(l.Params) {
 			unsupported("%s: lemma %s expects %d arguments", uc.Line, l.Name, len(l.Params))
